@@ -349,6 +349,11 @@ def hermes_state(ctx, rule):
     sp = [q.shape(b.expr_of_call(t), roles) for bi, t in q.calls_to(b, "str::<impl str>::split")]
     ctx.check(sorted(sp) == sorted(["str::split(%s.mappings,59)" % ENTRY, "str::split(try(Iterator::next(LINES)),44)"]), rule, fn, "mappings:same-entry",
               "the decoded text is the mappings string of that same entry, split on ';', each piece split on ','", detail=str(sp))
+    # what the per-source step answers is what it built from this entry: its Some results are the one literal made of this
+    # entry's names and the offsets decoded in this invocation (no map remembered from an earlier source is handed out)
+    somes = [sh for sh, _, _ in q.def_shapes(b, 0, {}) if not sh.startswith("FromResidual::from_residual(") and sh != "Option::None{}"]
+    ok = len(somes) == 1 and q.wild("Option::Some{0:HermesFunctionMap{names:%s.names,mappings:var:Vec<HermesScopeOffset>}}" % ENTRY, somes[0])
+    ctx.check(ok, rule, fn, "result:built-here", "the function map returned for a source is built from that source's entry in this very step", detail=str(somes)[:300])
     h = ctx.body("hermes::decode_hermes")
     from rules.common import residual_blocks as _rb, result_blocks as _resb
     exits = len(set(_rb(h))) + len(set(_resb(h, "Err")))
